@@ -34,6 +34,12 @@ def run(ctx):
         s = ctx.replay_cases("disp", r.out)
         total += int(s.get("cases", 0))
         ctx.part("replay_" + d, configurations=s.get("cases"), executions=s.get("evaluations"))
+    # functions for the types arbitrary JSON decodes into, applied to values behind `any`
+    r = ctx.tlc("MC_AnyFuncs", capture_lines=False, consts={"Kinds": {"bool", "string", "float64", "map", "slice", "other"}, "MaxFuncs": 3 if ctx.quick else 4, "EmitCases": True},
+                invariants=("Law", "EmitInv"))
+    s = ctx.replay_cases("anyf", r.out)
+    total += int(s.get("cases", 0))
+    ctx.part("replay_anyfuncs", lists=s.get("cases"), executions=s.get("evaluations"))
     ctx.sample({"type": "MarshalJSONTo on *T declining untouched, MarshalJSON on T", "position": "element of a by-value array",
                 "expected_calls": ["to", "json"], "expected_output": '["json:val"]'})
     ctx.assumptions += [
